@@ -54,8 +54,15 @@ func propC29VersionUpgradeOnlyWhenIdle(t testing.TB) {
 		nswaps := rapid.IntRange(0, 6).Draw(t, "nswaps")
 		allTerminal := true
 		var states []string
+		usedIds := map[string]bool{}
 		for i := 0; i < nswaps; i++ {
 			sm, _, _ := genRecord(t)
+			// distinct swaps have distinct ids (the store keeps one record per id)
+			for usedIds[sm.SwapId.String()] {
+				sm.SwapId[31]++
+				sm.SwapId[30] ^= byte(i + 1)
+			}
+			usedIds[sm.SwapId.String()] = true
 			// bias towards terminal states so that "all terminal" stores with several swaps are common
 			if rapid.IntRange(0, 2).Draw(t, "terminalBias") > 0 {
 				sm.Current = rapid.SampledFrom([]swap.StateType{swap.State_ClaimedCsv, swap.State_SwapCanceled, swap.State_ClaimedPreimage, swap.State_ClaimedCoop}).Draw(t, "tstate")
